@@ -7,7 +7,8 @@ NOT_APPLICABLE = {}
 
 PROPS["C20"] = dict(
     harness="process", module="Cases.C20Check",
-    level_text="Theorems C20_split / C20_exact / C20_isolated / C20_snapshot (Coq, closed under the global context) state exactness of the "
+    level_text="Theorems C20_split / C20_exact / C20_isolated / C20_snapshot / C20_snapshot_stable / C20_snapshot_taken_at_require (Coq, closed under the "
+               "global context; the last two over histories in which the host changes its own environment) state exactness of the "
                "split at the first '=' for all names and values, that the map holds exactly the host's pairs, and non-interference between "
                "runtimes for every history; the split constants come from the source via the translator and the model is replayed against "
                "child processes with generated environments",
@@ -15,12 +16,13 @@ PROPS["C20"] = dict(
                "process/module.go) + differential histories in child processes. Trusted: os/exec environment passing, goja's Go-map wrapper.",
     rule="case = one child process with a generated environment (0..100 variables, names/values over an alphabet with "
          "empty values, several '=', spaces, non-ASCII) and a history of require/assign/delete over 1-3 runtimes sharing "
-         "one Registry, observed after every operation; non-trivial = some value is empty or contains '=', or >= 2 runtimes "
+         "one Registry, interleaved with os.Setenv/os.Unsetenv by the host (also right after a require nobody has read from yet), observed after "
+         "every operation that is not marked quiet; non-trivial = some value is empty or contains '=', or >= 2 runtimes "
          "with at least one mutation; distinct by hash of the canonical case",
     codes={"Diff1": "model replay of the history differs from the observed process.env of some runtime",
            "SpecFail1": "process.env of the acting runtime is not exactly the host variables modified by its own writes",
-           "SpecFail2": "an operation in one runtime changed what another runtime sees",
-           "SpecFail3": "os.Environ() of the host changed",
+           "SpecFail2": "an operation in one runtime, or a later change of the host environment, changed what another runtime sees",
+           "SpecFail3": "os.Environ() of the host differs from its own history (initial variables changed only by the host's own Setenv/Unsetenv)",
            "Implchild-crashed": "the probe process crashed"},
     trusted=["os/exec passes the generated environment unchanged to the child; goja's map[string]string wrapper "
              "(Object.entries, assignment, delete) is assumed to act on the Go map of that runtime only"],
@@ -190,6 +192,8 @@ _REQ_CODES = {"Diff1": "model event log (outcomes, identities, exports seen) dif
               "SpecFail3": "the same native name yielded two different objects", "SpecFail4": "a native loader ran more than once in one runtime",
               "SpecFail5": "two requires of one file without re-evaluation returned different exports, or a re-evaluation without a failure in between",
               "Implthrown-value-not-identical": "the value caught by the requirer is not the thrown value", "Implrequire-crashed": "require crashed",
+              "Implrealfs-one-file-two-modules": "real directory with symbolic links: requests that the resolver canonicalises to one file gave two modules or two evaluations",
+              "Implrealfs-require-failed": "real directory with symbolic links: a request failed",
               "Implthrown-value-did-not-reach-the-requirer": "a module body threw, but the require() evaluating it did not report that very value next"}
 
 _REQ_TRUST = ["goja: evaluation of the rendered JavaScript (assignment, call, try/catch, throw, Map identity), CaptureCallStack source names",
@@ -284,16 +288,22 @@ _LOOP_CODES = {
     "Implfree-terminate-did-not-return": "free run: Terminate() did not return within 5 s",
     "Implfree-goroutine-left-after-terminate": "free run: a timer/interval goroutine outlived Terminate()",
     "Implfree-api-call-panicked": "free run: an API call panicked",
+    "Implfree-run-returned-before-quiescence": "free run: Run() returned although a timeout it had set had not run",
+    "Implfree-ran-after-terminate": "free run: work requested before Terminate() returned ran after the restart",
+    "Implfree-accepted-not-run-by-terminate": "free run: functions accepted before Terminate() had not all run when it returned",
     "Implfree-uncleared-timeout-never-ran": "free run: a short timeout set on a loop that was started and never stopped did not run",
 }
 _FREE = {
     "C03": ["Implfree-callbacks-overlap", "Implfree-callback-while-stopped", "Implfree-api-call-panicked"],
-    "C04": ["Implfree-accepted-not-run-once", "Implfree-fifo-broken", "Implfree-refused-ran", "Implfree-accepted-function-never-ran"],
+    "C04": ["Implfree-accepted-not-run-once", "Implfree-fifo-broken", "Implfree-refused-ran", "Implfree-accepted-function-never-ran",
+            "Implfree-accepted-not-run-by-terminate"],
     "C05": ["Implfree-timeout-ran-twice", "Implfree-ran-after-clear", "Implfree-uncleared-timeout-never-ran"],
-    "C06": ["Implfree-stop-count-wrong", "Implfree-run-did-not-return-at-quiescence", "Implfree-run-did-not-return"],
+    "C06": ["Implfree-stop-count-wrong", "Implfree-run-did-not-return-at-quiescence", "Implfree-run-did-not-return",
+            "Implfree-run-returned-before-quiescence"],
     "C07": ["Implfree-stop-did-not-return", "Implfree-run-did-not-return-after-stop", "Implfree-accepted-not-run-once", "Implfree-timeout-ran-twice",
-            "Implfree-api-call-panicked"],
-    "C08": ["Implfree-goroutine-left-after-terminate", "Implfree-terminate-did-not-return", "Implfree-ran-after-clear", "Implfree-refused-ran"],
+            "Implfree-api-call-panicked", "Implfree-uncleared-timeout-never-ran", "Implfree-accepted-function-never-ran"],
+    "C08": ["Implfree-goroutine-left-after-terminate", "Implfree-terminate-did-not-return", "Implfree-ran-after-clear", "Implfree-refused-ran",
+            "Implfree-ran-after-terminate"],
 }
 _LOOP_TRUST = ["Go runtime: goroutine scheduling between verifPoints is controlled by parking every thread at every point and granting one at a time; "
                "stability (all threads parked or blocked) is read from runtime.Stack goroutine states",
